@@ -125,6 +125,7 @@ func (p *P) ReadOps(id string) (persistence.LogStateReadOps, error) {
 		return nil, err
 	}
 	r, err := p.In.ReadOps(id)
+	p.obs("ReadOps", id, nil, err)
 	if err != nil {
 		return nil, err
 	}
@@ -204,7 +205,7 @@ func (w *writer) Set(c []byte) error {
 	if err == nil && ferr != nil {
 		err = ferr
 	}
-	w.p.obs("w.Set", w.id, nil, err)
+	w.p.obs("w.Set", w.id, c, err)
 	return err
 }
 
